@@ -77,7 +77,7 @@ def arg_content(rng, depth, in_template, in_link=False):
     if r < 0.12:
         return []
     if r < 0.5 or depth <= 0:
-        s = text(rng, rng.choice(["w", "ww", "num", "bang", "uni", "colon"]))
+        s = text(rng, rng.choice(["w", "ww", "num", "bang", "uni", "colon", "eq", "punct"]))
         if rng.random() < 0.15:
             s = rng.choice([" ", "\n", "  "]) + s
         if rng.random() < 0.15:
@@ -161,6 +161,15 @@ def element(rng, depth, tag=None, nattrs=None, odd=False, content=None):
     return it
 
 
+def void(rng):
+    """<br>, <br/>, <br />, <wbr>, sometimes with attributes"""
+    at = attrs(rng, 1) if rng.random() < 0.2 else []
+    sl = rng.choice(["", "", "/", " /"])
+    if at and at[-1][2] == "" and sl == "/":
+        sl = " /"           # value/ would be a different bare value
+    return ["H", rng.choice(["br", "br", "br", "wbr", "BR"]), at, None, sl]
+
+
 def item(rng, depth, in_template=False, allow=("x", "T", "L", "U", "B", "I", "H", "br")):
     k = rng.choice(allow)
     if k == "x":
@@ -182,7 +191,7 @@ def item(rng, depth, in_template=False, allow=("x", "T", "L", "U", "B", "I", "H"
     if k == "H":
         return element(rng, depth)
     if k == "br":
-        return ["H", "br", [], None, ""]
+        return void(rng)
     raise ValueError(k)
 
 
@@ -271,7 +280,7 @@ def cell_content(rng, cls):
     if cls == "spanattr":
         return [["H", "span", attrs(rng, 1), [["x", w]], ""]]
     if cls == "br":
-        return [["x", w], ["H", "br", [], None, ""], ["x", word(rng)]]
+        return [["x", w], void(rng), ["x", word(rng)]]
     if cls == "empty":
         return []
     if cls == "mix":
